@@ -1,10 +1,11 @@
 SPECIFICATION TSpec
 CONSTANTS
   Mods = {"m1", "m2", "m3"}
-  PNames = {"value", "target", "x", "y", "s"}
+  PNames = {"value", "target", "x", "y", "s", "_target", "_value"}
   ExtraM = {"zz"}
   ExtraP = {"zz", "cmd"}
   CmdP = {"cmd"}
+  DescCmds = {"cmd", "stop", "_stop"}
   Wires = {"w1", "w2", "w3", "wbad"}
   ValidW = {"w1", "w2", "w3"}
   ENames = {"ProtocolError", "NoSuchModule", "NoSuchParameter", "NoSuchCommand", "CommandFailed", "CommandRunning", "ReadOnly", "RangeError", "WrongType", "BadJSON", "CommunicationFailed", "TimeoutError", "HardwareError", "IsBusy", "IsError", "Disabled", "Impossible", "ReadFailed", "OutOfRange", "NotImplemented", "InternalError", "Bogus", "BadValue"}
